@@ -237,6 +237,7 @@ class StubClient(object):
         self.version_d = None
         self.cancel_value = None
         self.broken = False   # send_produce_request raises synchronously (event 13)
+        self.sync_plans = []  # python event ("syncnext", kind, k): the next produce requests return ALREADY-FIRED Deferreds
 
     # -- metadata cache (client.py:274-301, 328-332)
     def metadata_error_for_topic(self, topic):
@@ -269,6 +270,16 @@ class StubClient(object):
         if self.broken:
             raise RuntimeError("scripted: handing the produce request to the client raises")
         self.run.saw_produce(payloads, acks, fail_on_error)
+        if self.sync_plans:
+            # the client answers at once (e.g. the real client with cached metadata that names no leader raises
+            # LeaderUnavailableError before any I/O): the Deferred handed back has already fired.  For the model this is
+            # the result event right after the event that sent the request: the step is split here.
+            kind, k = self.sync_plans.pop(0)
+            v = self.sync_value(kind, k, payloads, acks)
+            d = Deferred()
+            self.run.split_step([10] + self.run.value_ints(v))
+            self.run.fire_value(d, v)
+            return d
 
         def canceller(dd):
             v = self.cancel_value
@@ -277,6 +288,22 @@ class StubClient(object):
         d = Deferred(canceller)
         self.request = (d, [(p.topic, p.partition) for p in payloads])
         return d
+
+
+def _sync_value(self, kind, k, payloads, acks):
+    cur = sorted((TOPICS.index(p.topic), p.partition) for p in payloads)
+    if kind == "ok":
+        return ("empty", None) if acks == 0 else ("resp", [(t, p, 0, 100 + 10 * j) for j, (t, p) in enumerate(cur)])
+    if kind == "failed":
+        return ("failed", [], [(t, p, k) for (t, p) in cur])
+    if kind == "errcode" and acks != 0:
+        return ("resp", [(t, p, k, -1) for (t, p) in cur])
+    if kind == "partial" and acks != 0 and len(cur) >= 2:
+        return ("failed", [(t, p, 0, 100 + 10 * j) for j, (t, p) in enumerate(cur[1:])], [(cur[0][0], cur[0][1], K_CONNLOST)])
+    return ("kafka", K_LEADERUNAVAIL)
+
+
+StubClient.sync_value = _sync_value
 
 
 # ------------------------------------------------------------------ one implementation run
@@ -561,9 +588,15 @@ class ImplRun(object):
     # -- events
     def apply(self, ev):
         """ev: python-level event tuple; appends the model event and the step outputs"""
+        if ev[0] == "syncnext":       # not a model event: arms the client (see StubClient.send_produce_request)
+            self.client.sync_plans.append((ev[1], ev[2]))
+            return None
         self.cur = []
         self.result_applied = False
+        self._split = False
         mev = self._apply(ev)
+        if self._split:
+            mev = self.cur_event
         self.events.append(mev)
         self.applied.append(self.result_applied)
         self.raw.append(list(self.cur))
@@ -571,6 +604,21 @@ class ImplRun(object):
         self.cur = None
         self.snaps.append(self.snapshot())
         return mev
+
+    def split_step(self, mev2):
+        """the step of the current event ends here and the model event mev2 begins (a result that arrives
+        synchronously, inside the call that sent the request)"""
+        self.events.append(self.cur_event)
+        self.applied.append(self.result_applied)
+        self.raw.append(list(self.cur))
+        self.trace.append(sorted(self.cur))
+        snap = self.snapshot()
+        snap["busy"] = snap["req"] = True      # between the two halves the request just sent is outstanding
+        self.snaps.append(snap)
+        self.cur = []
+        self.cur_event = mev2
+        self.result_applied = True
+        self._split = True
 
     def snapshot(self):
         """what an outside observer can tell after an event: is the producer waiting on anything it asked its
@@ -822,6 +870,8 @@ def gen_send(rnd, run):
         specs = [s if isinstance(s, int) else 8 for s in specs]
     if cfg["partitioner"] == "scripted":
         r = rnd.random()
+        if cfg.get("sync"):
+            r = 1.0     # a partitioner failure is reported after the batch's produce request was handed over (see gen_event)
         cfg["script"][make_key(sid, False)] = "raise" if r < 0.06 else "out" if r < 0.1 else rnd.randint(0, 2)
     return ("send", sid, t, key_none, specs)
 
@@ -848,8 +898,12 @@ def gen_event(rnd, run, stopped):
     if run.nsid:
         opts.append((1.2, lambda: ("cancel", rnd.randrange(run.nsid + 1))))
     opts.append((9 if looper else 0.7, lambda: ("tick",)))
-    opts.append((4, lambda: ("metaset", rnd.randrange(cfg["ntop"]),) + rnd.choice([(0, True), (0, True), (0, True), (5, True), (3, False), (0, False), (6, True)])))
-    opts.append((0.8, lambda: ("metaclearall",)))
+    if not cfg.get("sync"):
+        # (with synchronous client results the metadata is kept stable: a send whose partition lookup fails gets its
+        # outcome AFTER the produce request of its batch was handed over, i.e. after a synchronous result was handled;
+        # the sequential model puts both in the step of the event - an ordering the split of the step would expose)
+        opts.append((4, lambda: ("metaset", rnd.randrange(cfg["ntop"]),) + rnd.choice([(0, True), (0, True), (0, True), (5, True), (3, False), (0, False), (6, True)])))
+        opts.append((0.8, lambda: ("metaclearall",)))
     if loads:
         def ld():
             lid = rnd.choice(loads)
@@ -888,6 +942,19 @@ def gen_event(rnd, run, stopped):
             opts.append((3.0, lambda: ("broken", False)))
         else:
             opts.append((0.5, lambda: ("broken", True)))
+    if cfg.get("sync") and len(getattr(run.client, "sync_plans", [0, 0])) < 2:
+        def sy():
+            r = rnd.random()
+            if r < 0.3:
+                return ("syncnext", "ok", 0)
+            if r < 0.55:
+                return ("syncnext", "kafka", 0)
+            if r < 0.75:
+                return ("syncnext", "failed", rnd.choice([K_CONNLOST, K_CONNDONE, K_AFKAKCONN]))
+            if r < 0.9:
+                return ("syncnext", "errcode", rnd.choice(ERRS))
+            return ("syncnext", "partial", 0)
+        opts.append((cfg["sync"], sy))
     if not stopped:
         def st():
             if req and rnd.random() < 0.5:
